@@ -117,6 +117,11 @@ def fieldProp (i : Nat) : String :=
   else if i == 14 then "C07"
   else "C04,C05,C09"
 
+/-- the maxima for which an object is cited: when such a number is wrong, the object cited for it does not
+    attain the REPORTED value either (C08), unless no object is cited at all (--names=none) -/
+def fieldPropW (cited : Bool) (i : Nat) : String :=
+  if cited && [2, 4, 8, 11, 13, 15, 16, 17, 18, 19, 20, 21].contains i then fieldProp i ++ ",C08" else fieldProp i
+
 /-- union of comma-separated property tags -/
 def unionProps (l : List String) : String :=
   ",".intercalate ((l.flatMap (·.splitOn ",")).eraseDups)
@@ -192,7 +197,7 @@ def graphEngine : Engine := fun inp obs =>
         -- 1. numbers
         let bad := (List.range spec.length).filter fun i => nums.getD i 0 != spec.getD i 0
         if let some i := bad.head? then
-          .viol (unionProps (bad.map fieldProp)) (", ".intercalate (bad.map fun i => s!"{fieldNames.getD i "?"} = {nums.getD i 0}, true value clamped = {spec.getD i 0}"))
+          .viol (unionProps (bad.map (fieldPropW true))) (", ".intercalate (bad.map fun i => s!"{fieldNames.getD i "?"} = {nums.getD i 0}, true value clamped = {spec.getD i 0}"))
         else
         -- 2. memos
         let tn := expandTable (PN r) r.length
@@ -232,7 +237,7 @@ def graphEngine : Engine := fun inp obs =>
         else .ok (if Scan.runHypothesesb r ops then "thm" else "")
       | ["timeout"] => .viol "C05" "the aggregator did not finish this small repository within 60 s: its work grows with the expanded size, not with the number of distinct objects"
       | ["skipped"] => .ok "trivial"
-      | ["panic"] => .viol "C09,C01,C10" "the aggregator panics on a valid delivery schedule"
+      | ["panic"] => .viol "C09,C01,C02,C03,C04,C10" "the aggregator panics on a valid delivery schedule (no number is reported at all)"
       | _ => .bad "observed fields"
     | _, _ => .bad "decode"
   | _ => .bad "arity"
